@@ -171,6 +171,35 @@ def determinism_over_time(run):
             if len(set(names.values())) > 1:
                 run.violation("optimize() of sort_values(%r, ascending=%s) depends on the moment in the session: %s" % (col, second == "asc", names),
                               {"kind": "over-time", "column": col, "first": first, "second": second})
+    # plans whose metadata (npartitions / divisions) is itself computed by a nested optimize(): must converge
+    df = rt.dx.from_pandas(pre, npartitions=4)
+    nested = {
+        "head then repartition(npartitions=3)": lambda: df.head(6, compute=False).repartition(npartitions=3),
+        "tail then repartition(npartitions=2)": lambda: df.tail(6, compute=False).repartition(npartitions=2),
+        "(df+1).head then repartition": lambda: (df + 1).head(6, compute=False).repartition(npartitions=2),
+        "head then repartition(partition_size)": lambda: df.head(20, npartitions=2, compute=False).repartition(partition_size="200B"),
+        "head then repartition(npartitions=1)": lambda: df.head(6, compute=False).repartition(npartitions=1),
+        "repartition(3) then head": lambda: df.repartition(npartitions=3).head(4, compute=False),
+        "repartition of repartition": lambda: df.repartition(npartitions=7).repartition(npartitions=2),
+        "sort then repartition then head": lambda: df.sort_values("w").repartition(npartitions=3).head(3, compute=False),
+        "set_index then repartition(5) then tail": lambda: df.set_index("w").repartition(npartitions=5).tail(2, compute=False),
+        "loc then repartition": lambda: df.loc[5:40].repartition(npartitions=3),
+        "partitions then repartition(6)": lambda: df.partitions[[1, 2]].repartition(npartitions=6),
+    }
+    import sys
+    for nm, mk in nested.items():
+        n += 1
+        run.count(("nested-optimize", nm))
+        old = sys.getrecursionlimit()
+        sys.setrecursionlimit(600)
+        try:
+            r = try_(lambda: (lambda q: (q.npartitions, q.optimize().expr._name, q.optimize().optimize().expr._name, len(q.compute())))(mk()))
+        finally:
+            sys.setrecursionlimit(old)
+        if r[0] == "raise":
+            run.violation("optimize() of %s does not converge / fails: %s" % (nm, r[1][:200]), {"kind": "nested-optimize", "query": nm})
+        elif r[1][1] != r[1][2]:
+            run.violation("optimize() of %s is not idempotent" % nm, {"kind": "nested-optimize", "query": nm})
     run.section("determinism_over_time", optimizations=n)
 
 
